@@ -119,6 +119,21 @@ if __name__ == "__main__":
                         continue
                     S = {"fock": state("fock", n, pure, family, cutoff_dim=cut + 6), "bosonic": state("bosonic", n, pure, family)}
                 subsets = [list(c) for r in range(1, n + 1) for c in itertools.combinations(range(n), r)]
+                if n == 3 and family == "gaussian":
+                    # the full three-mode density matrix (pure reduced state for pure=True): same tensor, index by index,
+                    # on the gaussian and the fock representation
+                    EVAL[0] += 1
+                    try:
+                        c3 = 5
+                        rg = S["gaussian"].reduced_dm([0, 1, 2], cutoff=c3)
+                        rf = S["fock"].reduced_dm([0, 1, 2])
+                        sl = tuple(slice(0, c3) for _ in range(6))
+                        if rg.shape != (c3,) * 6:
+                            bad(f"gaussian n=3 pure={pure}: reduced_dm([0,1,2]) has shape {rg.shape}, expected two indices per mode")
+                        elif not np.allclose(rg, rf[sl], atol=5e-3):
+                            bad(f"n=3 pure={pure}: reduced_dm([0,1,2]) differs between the gaussian and the fock representation (max {abs(rg - rf[sl]).max():.3g})")
+                    except Exception as e:
+                        bad(f"n=3 pure={pure}: three-mode reduced_dm raised {type(e).__name__}: {e}")
                 ref = {}
                 refname = next(iter(S))
                 for name, st in S.items():
